@@ -2423,6 +2423,10 @@ class ModuleInfo(object):
         """
         f_helper = wformat(helpers, fmt)
         for i, helper in enumerate(f_helper.split()):
+            if helper not in whelpers.FHelpers:
+                raise RuntimeError(
+                    "No Fortran helper '{}': type is not supported"
+                    " for this argument".format(helper))
             self.f_helper[helper] = True
             setattr(fmt, "hnamefunc" + str(i),
                     whelpers.FHelpers[helper].get("name", helper))
